@@ -14,7 +14,8 @@ RULE = ("cases: (a) linear / heavy-hitter ceiling: (start offset in cap-3..cap, 
         "add or merge may lower any estimate, and a heavy-hitter key alone in its cells only grows; (c) log configuration grid max_count in "
         "{300..2^63} x num_reserved in {0..uint_max-1}: constructor raises ValueError or the maximum counter decodes to max_count (rel 1e-8); "
         "small max_count: the ceiling is reached by real adds and by merges and stays; non-trivial = the case reached a ceiling; distinct = by "
-        "case digest")
+        "case digest; also: ceiling steps delivered by add_ngram (a window inside a longer record; a run of one byte), overflow placed in "
+        "one chosen row, merges of nearly saturated tables of 4099..20000 cells, mostly-reserved log ranges (max_count < 2*num_reserved)")
 ASSUMPTIONS = ["known finding F4 (countmin._find_base not converged / unsolvable configurations accepted) is classified by a model of the defective mechanism, see vmon/known.py",
                "log ceilings are reached by adding 3*max_count (max_count <= 10^6): probability of not reaching it < 1e-9 by the exact chain's variance"]
 LEVEL_TEXT = ("All four ceilings (linear, heavy hitters, log8, log16) are approached from below and beyond by adds and by merges and "
